@@ -26,6 +26,36 @@ ADD={
  "C21":("Also decided: every RWManager.ReadAt call outside the implementations sits in a CRC-verifying decoder (segment bytes reach callers only through the verifying decoder).", ", who-may-call rule for raw segment reads"),
  "C22":("A data-presence test that probes one fixed segment id is reported (Merge removes the low ids).", ""),
 }
+ADD2={
+ "C01":("Further: every KV write API logs on every success path, DataFile.fileID is read only where it was assigned, segments are replayed in ascending id order.", ""),
+ "C02":("Further: tombstones widen a tree's key bounds like any record (they become a sealed segment's lookup range), KV write APIs log on every success path, segments are listed in ascending id order.", ""),
+ "C03":("Further: scan results with offset 0 pass the live guards and the newest-wins merge; DataFile.fileID is read only where it was assigned (a cached read handle cannot mistake segments).", ""),
+ "C09":("Further: entry-size tests against the segment size use the full encoded size; the bucket-meta/root-index/entry codecs are symmetric (a reader that checksums more than the record fails Open on a valid file).", ""),
+ "C10":("Further: the active file's counters advance only after the record's write succeeded, the commit-time registration of the transaction id happens only for the marker record after its write and for every committing transaction, and a record's on-disk status is tested only by the recovery guard.", ", field-pairing rule"),
+ "C11":("Further: Merge removes a segment only after its rewrite (which syncs through Commit) reported success; recovery resumes writing at the end of the scanned records; no behaviour (such as skipping a sync) hangs on DB.isMerging, which outlives a successful merge.", ""),
+ "C12":("Further: counters advance and the transaction id is registered only after the write succeeded; recovery believes only ids with a marker and only after scanning all segments; nothing is conditional on DB.isMerging.", ""),
+ "C15":("Further: the commit-time registration that Merge's filter relies on cannot be skipped or happen early; no behaviour hangs on DB.isMerging (never cleared on success).", ""),
+ "C16":("Further: the commit marker rule and the committed-id registration rules (a rewrite is atomic and its records are believed), and nothing conditional on DB.isMerging.", ""),
+ "C17":("Further: no package-level mutable storage is reachable from the (unlocked) merge scan and the read paths; nothing is conditional on DB.isMerging.", ""),
+ "C18":("Further: writers take the exclusive lock regardless of DB.isMerging, and the bucket-meta/root-index/entry codecs are symmetric (the copy decodes).", ", lock-mapping rule, codec symmetry"),
+ "C19":("Further: a record's on-disk status is never used as a read filter (only the last record of a transaction carries it), tombstones widen the sparse key bounds, DataFile.fileID is read only where assigned.", ""),
+ "C20":("Further: accesses at (length - k) are dominated by length >= k.", ", linear-form lower-bound guards"),
+ "C22":("Further (the RAM-mode switch clause): key-only reads never filter on the on-disk status and never tell segments apart by an unassigned DataFile.fileID.", ", field-use rules"),
+}
+def apply(k, txt, tech):
+    t=T[k]
+    marker=txt[:40]
+    if marker not in t["text"]:
+        core="The behaviour itself (quantified over runtime values"
+        if core in t["text"]:
+            i=t["text"].index(core)
+            t["text"]=t["text"][:i]+txt+" "+t["text"][i:]
+        else:
+            t["text"]+=" "+txt
+    if tech and tech not in t["technique"]:
+        t["technique"]+=tech
+for k,(txt,tech) in ADD2.items():
+    apply(k,txt,tech)
 for k,(txt,tech) in ADD.items():
     t=T[k]
     marker=txt[:40]
